@@ -20,6 +20,14 @@ Fail(c, ok) == IF ok THEN {} ELSE {c}
 
 (* ---- helpers on recorded data -------------------------------------------- *)
 PointsComplete(model, pts) == { PairsFn(pts[i].asg) : i \in DOMAIN pts } = Box(model)
+\* wide leaf ranges (16-bit): the box cannot be enumerated; the recorded points must be in-bounds total assignments and
+\* must contain, for every leaf, its lower and upper bound
+PointsCritical(model, pts) ==
+  /\ \A i \in DOMAIN pts : LET a == PairsFn(pts[i].asg) IN
+        DOMAIN a = LeafIds(model) /\ \A lf \in LeafIds(model) : LeafLo(model, lf) <= a[lf] /\ a[lf] <= LeafHi(model, lf)
+  /\ \A lf \in LeafIds(model) : (\E i \in DOMAIN pts : PairsFn(pts[i].asg)[lf] = LeafLo(model, lf))
+                                 /\ (\E i \in DOMAIN pts : PairsFn(pts[i].asg)[lf] = LeafHi(model, lf))
+PointsOK(e) == IF e.wide THEN PointsCritical(e.model, e.points) ELSE PointsComplete(e.model, e.points)
 IsConstIv(b) == b[1] = b[2]
 Model(e) == e.model
 Claim(m) == ~IsAtom(m) /\ WellDefined(m) /\ NoPrefixed(m) /\ NoByRef(m)
@@ -49,7 +57,7 @@ PartialPoint(m, p) ==
                            \A x \in { x \in Flat(m) : x.id = id } : InIv(Pt(x, a), res[id]))
      \cup Fail("top_equal", m.id \in DOMAIN res /\ p.res_top = res[m.id])
 EvPartial(e) ==
-  IF ~Claim(e.model) THEN {"outside_domain"}
+  IF ~InDomain(e.model) THEN {"outside_domain"}
   ELSE UNION { PartialPoint(e.model, e.points[i]) : i \in DOMAIN e.points }
 
 EvFlags(e) ==
@@ -71,7 +79,7 @@ EvToPoly(e) ==
       ptsOk == \A i \in DOMAIN e.points : LET ev == PairsFn(e.points[i].ev) IN
                    cids \cup {m.id} \subseteq DOMAIN ev /\ EvIsConst(ev)
   IN IF ~Claim(m) THEN {"outside_domain"} ELSE
-     Fail("points_complete", PointsComplete(m, e.points))
+     Fail("points_complete", PointsOK(e))
      \cup Fail("cols_are_ids", colsOk)
      \cup Fail("ev_total", ptsOk)
      \cup (IF colsOk /\ ptsOk THEN
@@ -95,13 +103,18 @@ EvToPoly2(e) ==
       AuxBoxR == { f \in [auxIds -> {0, 1}] : \A j \in auxCols : f[e.cols[j].id] >= e.cols[j].lo /\ f[e.cols[j].id] <= e.cols[j].hi }
       truth(i) == PairsFn(e.points[i].ev)[m.id]
   IN IF ~Claim(m) THEN {"outside_domain"} ELSE
-     Fail("points_complete", PointsComplete(m, e.points))
+     Fail("points_complete", PointsOK(e))
      \cup Fail("cols_are_ids", colsOk)
      \cup Fail("safe_built", (ExpectSafe(e.recipe) /\ RBool(e.recipe)) => Safe(m))
      \cup (IF colsOk THEN
              Fail("cols_bounds", boundsOk)
+             \* a completion exists: the library's own evaluation of the sub-propositions is tried first as the witness; otherwise
+             \* all 0/1 completions are enumerated while there are at most 12 auxiliary columns (beyond that: undecided, not alarmed)
              \cup Fail("complete", \A i \in DOMAIN e.points : truth(i) = <<1, 1>> =>
-                          \E x \in AuxBoxR : MSat(e.rows, e.cols, PairsFn(e.points[i].asg) @@ x))
+                          LET ev == PairsFn(e.points[i].ev) IN
+                          \/ (cids \subseteq DOMAIN ev /\ EvIsConst(ev) /\ MSat(e.rows, e.cols, ExtOf(ev)))
+                          \/ Cardinality(auxIds) > 12
+                          \/ \E x \in AuxBoxR : MSat(e.rows, e.cols, PairsFn(e.points[i].asg) @@ x))
              \cup Fail("sound_if_safe", (Safe(m) /\ e.full) => \A i \in DOMAIN e.points : truth(i) # <<1, 1>> =>
                           \A x \in AuxBoxR : ~MSat(e.rows, e.cols, PairsFn(e.points[i].asg) @@ x))
            ELSE {})
